@@ -229,7 +229,7 @@ fn loom_try(tier: Tier) -> Result<(Value, Vec<Divergence>), String> {
     }
     let out = std::process::Command::new(LOOM_BIN)
         .arg(tier.name())
-        .env("LOOM_MAX_PREEMPTIONS", if tier == Tier::Quick { "3" } else { "4" })
+        .env("LOOM_MAX_PREEMPTIONS", "3")
         .output()
         .map_err(|e| format!("cannot run {LOOM_BIN}: {e}"))?;
     let stdout = String::from_utf8_lossy(&out.stdout);
@@ -284,6 +284,7 @@ pub fn run_c20(args: &Args) -> i32 {
         layer = next;
     }
     let mut executions = 0u64;
+    let mut cross_thread = 0u64;
     let mut steps = 0u64;
     let mut sample = vec![];
     for (_, h) in shortest.iter() {
@@ -295,6 +296,9 @@ pub fn run_c20(args: &Args) -> i32 {
                     full.extend(suf.iter().copied());
                     executions += 1;
                     steps += full.len() as u64;
+                    if full.iter().any(|x| x.0 == 0) && full.iter().any(|x| x.0 == 1) {
+                        cross_thread += 1;
+                    }
                     if let Some(d) = run_history(&full) {
                         report.record(&[d], || hist_json(&full));
                     }
@@ -332,8 +336,8 @@ pub fn run_c20(args: &Args) -> i32 {
             "transitions": steps + schedules,
             "traces_validated_against_impl": executions + schedules,
             "evaluations": executions + schedules,
-            "distinct_nontrivial": executions,
-            "rule": "engine A: BFS over the reference states (global flag, two overrides, <=1 saved token per thread); from each state's shortest history every (thread, op) of the 8 operations followed by every suffix of length <= 1 (thorough 2), each history executed on two fresh OS threads driven in lock-step, both threads' is_enabled() compared with the reference after every step. engine B: loom on the unmodified tracing-enabled source (std shim exporting loom Cell / atomic / thread_local): every pair of programs of <= 2 (thorough 3) operations on two loom threads, every interleaving loom's DPOR enumerates within the preemption bound, oracle = some sequential order respecting program order explains all observations and the final state.",
+            "distinct_nontrivial": cross_thread,
+            "rule": "non-trivial = engine-A histories in which BOTH threads perform operations (the isolation claim is about cross-thread effects). engine A: BFS over the reference states (global flag, two overrides, <=1 saved token per thread); from each state's shortest history every (thread, op) of the 8 operations followed by every suffix of length <= 1 (thorough 2), each history executed on two fresh OS threads driven in lock-step, both threads' is_enabled() compared with the reference after every step. engine B: loom on the unmodified tracing-enabled source (std shim exporting loom Cell / atomic / thread_local): every pair of programs of <= 2 operations (thorough: also 3-operation programs against <= 1-operation programs) on two loom threads, every interleaving loom's DPOR enumerates within the preemption bound, oracle = some sequential order respecting program order explains all observations and the final state.",
             "engine_a": {"reference_states": shortest.len(), "executions": executions, "steps": steps, "suffix_length": suffix_len},
             "engine_b": lv,
             "exhaustive": true,
